@@ -47,6 +47,9 @@ func c09Foreign(mk func() any, isCond bool, st *Stats) *Violation {
 			p.Reset()
 		}},
 		{"single-member parent revealed (%s)", false, func(ro, f any) { stackage.Or().Push(stackage.And().Push(f)).Reveal() }},
+		{"first member of a parent that also holds a needless envelope, revealed (%s)", false, func(ro, f any) {
+			stackage.And().Push(f, stackage.And().Push(stackage.Or().Push("a", "b")), "tail").Reveal()
+		}},
 		{"Condition holding it as %s", false, func(ro, f any) {
 			c := stackage.Cond("holder", stackage.Eq, f)
 			_ = c.String()
@@ -521,7 +524,7 @@ func enumC09(tier Tier, yield func(C09Case)) {
 
 var c09RecvGen = TreeGen{MaxDepth: 2, MaxWidth: 4, Budget: 12, Kinds: stackKinds,
 	Leaf: func(t *rapid.T) Val { return genPrimVal(t, true, true) }, Conds: true, CondExprStack: true, NilLeaves: true, EmptyStacks: true,
-	Options: true, Caps: true, IndexOpts: true, MutexOpt: true, FIFOOpt: true, ZooLeaves: true, OddEncap: true, Ambient: true, WideRuns: true, NoNestAfter: true}
+	Options: true, Caps: true, IndexOpts: true, MutexOpt: true, FIFOOpt: true, Wraps: true, ZooLeaves: true, OddEncap: true, Ambient: true, WideRuns: true, NoNestAfter: true}
 
 func genC09(t *rapid.T, tier Tier) C09Case {
 	c := C09Case{Rich: rapid.Bool().Draw(t, "rich"), Invalid: rapid.IntRange(0, 4).Draw(t, "invalid") == 0}
@@ -537,6 +540,7 @@ func genC09(t *rapid.T, tier Tier) C09Case {
 		ms = condMethods
 	} else {
 		c.Recv = c09RecvGen.Draw(t)
+		c.Recv.Wrap = WrapNative // (the receiver itself is a native value; its members may be aliases / pointers)
 	}
 	n := rapid.IntRange(1, 8).Draw(t, "ncalls")
 	for i := 0; i < n; i++ {
